@@ -225,6 +225,27 @@ def replay(path):
     if "cpp-trace" in head or "c-write-trace" in head:
         import c03_cpp
         return c03_cpp.replay(path)
+    if path.endswith(".txt") and head.startswith("# Miri report while running: write-sim run"):
+        # a Miri report: the same interpreter run is repeated against the tree under test
+        import re
+        m = re.search(r"--seed (\d+) --from (\d+) --distinct-shapes (\d+)", head)
+        cmd, cwd = miri_cmd("write-sim")
+        env = dict(ENV)
+        env["MIRIFLAGS"] = ""
+        lo = int(m.group(2))
+        rc, out, err = run_capture(cmd + ["run", "--seed", m.group(1), "--from", str(lo), "--to", str(lo + 10_000_000), "--distinct-shapes", m.group(3), "--out", "-"], cwd=cwd, env=env)
+        if "Undefined Behavior" in err or "memory leaked" in err:
+            print(err[-3000:])
+            print("VIOLATION property=C12 replay=%s oracle=MIRI-UB" % path)
+            return 1
+        if rc == 1 and "VIOLATION property=" in out:
+            print(out[-3000:])
+            return 1
+        if rc != 0:
+            print(err[-3000:])
+            return 2
+        print("REPLAY-OK Miri ran the recorded range without reporting undefined behaviour or a leak")
+        return 0
     bindir = cargo_build(["write-sim"])
     rc, out, err = run_capture([os.path.join(bindir, "write-sim"), "replay", path])
     print(out, end="")
